@@ -175,7 +175,10 @@ def build_bn(desc, M, tabs, cls=None):
     model = (cls or BayesianNetwork)()
     order = desc.get("node_order", desc["nodes"])
     for v in order:
-        model.add_node(nm[v])
+        if v in desc.get("latents", []):
+            model.add_node(nm[v], latent=True)  # declared latent: carries a CPD, never queried or observed by the harness
+        else:
+            model.add_node(nm[v])
     edges = [(p, v) for v in desc["nodes"] for p in desc["parents"][v]]
     if desc.get("edge_rev"):
         edges = edges[::-1]
